@@ -5,6 +5,7 @@
 
 #include <stddef.h>
 #include <functional>
+#include <limits>
 #include <map>
 #include <string>
 #include <utility>
@@ -45,6 +46,17 @@ inline void GetHash<const char *>(size_t &seed, const char *const &arg)
 {
   std::hash<std::string> hasher;
   seed ^= hasher(std::string(arg)) + 0x9e3779b9 + (seed << 6) + (seed >> 2);
+}
+
+// Specialization for double
+// an attribute map is a hash key: every NaN is the same attribute value (see
+// FilteredOrderedAttributeMap::operator==), so every NaN hashes alike.
+template <>
+inline void GetHash<double>(size_t &seed, const double &arg)
+{
+  std::hash<double> hasher;
+  const double value = (arg != arg) ? std::numeric_limits<double>::quiet_NaN() : arg;
+  seed ^= hasher(value) + 0x9e3779b9 + (seed << 6) + (seed >> 2);
 }
 
 struct GetHashForAttributeValueVisitor
